@@ -4,13 +4,15 @@
    * trexp(3-vector) and trexp(6-vector) return the closed forms (Rodrigues / screw), which are group members;
    * the closed form is a one-parameter group in the angle (R(a+b) = R(a)R(b), R(0) = 1) — the characterisation of
      the exponential used here; identification with the power series is not proved (DESIGN.md §7);
-   * exp(log R) = R on the general branch of the SO(3) logarithm (cos θ ≥ 0, sin θ > 0) and the logarithm there is
+   * exp(log R) = R on the general branch of the SO(3) logarithm (cos θ ≥ 0, sin θ > 0) and on the obtuse branch
+     (cos θ < 0, sin θ > 0: axis from the largest column of the symmetric part, all eight paths); the logarithm is
      θ·axis with a unit axis;
-  Explored (smv/props/c03.py, 60-digit reference exponential): the branch cos θ < 0 (axis from the symmetric part), the
-  SE(3) logarithm (G⁻¹), 2-D, thresholds, rounding.
+  Explored (smv/props/c03.py, 60-digit reference exponential): exact half turns and the identity band, the
+  SE(3) logarithm (G⁻¹), the 2-D logarithm, thresholds, rounding.  The 2-D exponential is in Props/Exp2.
 -/
 import SmVerif.Bridge.Exp
 import SmVerif.Spec.ExpLog
+import Mathlib.Tactic.LinearCombination
 
 namespace SmVerif.Props.C03
 open SmVerif SmVerif.Spec SmVerif.Bridge
@@ -92,4 +94,191 @@ theorem exp_log_SO3_general (hS : P.Sqrt) (hA : Atan2Law P) (m : Mat 3 3 R) (hm 
       · rw [← hcdef]; field_simp
       · linear_combination hunit
 
+/-! ### logarithm of a rotation matrix, obtuse branch -/
+set_option maxHeartbeats 2000000
+
+/-- on SO(3) the symmetric part is c·I plus a rank-one term: u uᵀ = (1 + c)(sym M − c I) with u = vex of the skew part, c = cos θ -/
+theorem sym_rank_one {M : Mat 3 3 R} (h : IsSO3 M) (i j : Fin 3) :
+    sinAxis M i * sinAxis M j = (1 + cosAngle M) * ((M i j + M j i) / 2 - cosAngle M * one3 i j) := by
+  have hsc := sin_sq_add_cos_sq h
+  have k := h.skewpart_sq i j
+  simp only [dot, sinAxis, cosAngle, Fin.sum_univ_three, v3_0, v3_1, v3_2] at hsc ⊢
+  fin_cases i <;> fin_cases j <;> simp [Fin.sum_univ_three, one3] at k ⊢ <;>
+    first | linear_combination (1/4) * k | linear_combination hsc + (1/4) * k
+
+
+/-- the axis read from one column of the symmetric part: with u = vex(skew part), p = 1 + c, b = column k of (sym M − c I)
+    (so that u_i u_k = p b_i), r = sqrt(b_k (1 − c)) and the sign chosen by the sign of (b/r)·u, the vector ±b/r times
+    s = |u| is u itself -/
+theorem axis_of_column (hS : P.Sqrt) (u0 u1 u2 b0 b1 b2 uk bk p c s dotv : R)
+    (h0 : u0 * uk = p * b0) (h1 : u1 * uk = p * b1) (h2 : u2 * uk = p * b2) (hk : uk * uk = p * bk)
+    (hs2 : u0 * u0 + u1 * u1 + u2 * u2 = s * s) (hp : p = 1 + c) (hsc : s * s + c * c = 1)
+    (hs : 0 < s) (hpp : 0 < p) (hbk : 0 < bk) (hc1 : 0 < 1 - c)
+    (hdot : dotv * P.sqrt (bk * (1 - c)) = b0 * u0 + b1 * u1 + b2 * u2) :
+    0 < P.sqrt (bk * (1 - c)) ∧
+    (dotv < 0 → (-(b0 / P.sqrt (bk * (1 - c)))) * s = u0 ∧ (-(b1 / P.sqrt (bk * (1 - c)))) * s = u1 ∧ (-(b2 / P.sqrt (bk * (1 - c)))) * s = u2) ∧
+    (¬ dotv < 0 → (b0 / P.sqrt (bk * (1 - c))) * s = u0 ∧ (b1 / P.sqrt (bk * (1 - c))) * s = u1 ∧ (b2 / P.sqrt (bk * (1 - c))) * s = u2) := by
+  have hD : 0 < bk * (1 - c) := mul_pos hbk hc1
+  have hrr := hS.mul_self _ (le_of_lt hD)
+  have hr0 := hS.nonneg (bk * (1 - c))
+  set r := P.sqrt (bk * (1 - c)) with hr
+  have hrpos : 0 < r := by
+    rcases lt_or_eq_of_le hr0 with h | h
+    · exact h
+    · exfalso; rw [← h] at hrr; linarith
+  have hukne : uk ≠ 0 := by
+    intro e; rw [e] at hk; have := mul_pos hpp hbk; linarith
+  -- (p r)² = (s |uk|)²
+  have hsq : (p * r) * (p * r) = (s * |uk|) * (s * |uk|) := by
+    have habs : |uk| * |uk| = uk * uk := abs_mul_abs_self uk
+    have : (p * r) * (p * r) = p * (uk * uk) * (1 - c) := by rw [hk]; linear_combination (p * p) * hrr
+    rw [this]
+    have : (s * |uk|) * (s * |uk|) = (s * s) * (uk * uk) := by linear_combination (s * s) * habs
+    rw [this, hp]; linear_combination (-(uk * uk)) * hsc
+  have hpr : p * r = s * |uk| := by
+    have h1' : 0 ≤ p * r := le_of_lt (mul_pos hpp hrpos)
+    have h2' : 0 ≤ s * |uk| := mul_nonneg (le_of_lt hs) (abs_nonneg uk)
+    have := mul_self_eq_mul_self_iff.mp hsq
+    rcases this with e | e
+    · exact e
+    · have : p * r = 0 := by linarith
+      have := mul_pos hpp hrpos; linarith
+  have hrne : r ≠ 0 := ne_of_gt hrpos
+  have hpne : p ≠ 0 := ne_of_gt hpp
+  have hsne : s ≠ 0 := ne_of_gt hs
+  -- b_i / r * s = u_i * uk / |uk|
+  have key : ∀ ui bi : R, ui * uk = p * bi → bi / r * s * |uk| = ui * uk := by
+    intro ui bi hi
+    have hbi : bi = ui * uk / p := by field_simp; linear_combination -hi
+    rw [hbi]; field_simp
+    linear_combination (-ui) * hpr
+  have hdv : dotv * (p * r) = uk * (s * s) := by
+    have : dotv * r * p = (b0 * p) * u0 + (b1 * p) * u1 + (b2 * p) * u2 := by rw [hdot]; ring
+    linear_combination this - u0 * h0 - u1 * h1 - u2 * h2 + uk * hs2
+  refine ⟨hrpos, ?_, ?_⟩
+  · intro hneg
+    have hukneg : uk < 0 := by
+      by_contra hcon; rw [not_lt] at hcon
+      have : 0 ≤ dotv * (p * r) := by rw [hdv]; exact mul_nonneg hcon (mul_self_nonneg s)
+      have h3 : dotv * (p * r) < 0 := mul_neg_of_neg_of_pos hneg (mul_pos hpp hrpos)
+      linarith
+    have habs : |uk| = -uk := abs_of_neg hukneg
+    have k0 := key u0 b0 h0; have k1 := key u1 b1 h1; have k2 := key u2 b2 h2
+    rw [habs] at k0 k1 k2
+    refine ⟨?_, ?_, ?_⟩
+    · apply mul_right_cancel₀ hukne; linear_combination k0
+    · apply mul_right_cancel₀ hukne; linear_combination k1
+    · apply mul_right_cancel₀ hukne; linear_combination k2
+  · intro hnn
+    have hukpos : 0 < uk := by
+      rcases lt_or_gt_of_ne hukne with hlt | hgt
+      · exfalso
+        have h3 : dotv * (p * r) < 0 := by rw [hdv]; exact mul_neg_of_neg_of_pos hlt (mul_pos hs hs)
+        have h4 : 0 ≤ dotv * (p * r) := mul_nonneg (not_lt.mp hnn) (le_of_lt (mul_pos hpp hrpos))
+        linarith
+      · exact hgt
+    have habs : |uk| = uk := abs_of_pos hukpos
+    have k0 := key u0 b0 h0; have k1 := key u1 b1 h1; have k2 := key u2 b2 h2
+    rw [habs] at k0 k1 k2
+    exact ⟨mul_right_cancel₀ hukne k0, mul_right_cancel₀ hukne k1, mul_right_cancel₀ hukne k2⟩
+
+/-- from an axis A with A·s = vex(skew part) to the statement of exp ∘ log -/
+theorem log_finish {M : Mat 3 3 R} (hm : IsSO3 M) (A0 A1 A2 s c θ : R)
+    (e0 : A0 * s = (M 2 1 - M 1 2) / 2) (e1 : A1 * s = (M 0 2 - M 2 0) / 2) (e2 : A2 * s = (M 1 0 - M 0 1) / 2)
+    (hs0 : s ≠ 0) (hc2 : 2 * c = M 0 0 + M 1 1 + M 2 2 - 1) (hunit : s * s + c * c = 1)
+    (hs2 : (M 2 1 - M 1 2) / 2 * ((M 2 1 - M 1 2) / 2) + (M 0 2 - M 2 0) / 2 * ((M 0 2 - M 2 0) / 2) + (M 1 0 - M 0 1) / 2 * ((M 1 0 - M 0 1) / 2) = s * s)
+    (hcos : P.cos θ = c) (hsin : P.sin θ = s) :
+    ∃ (a : Vec 3 R) (θ' : R), (∀ i, (v3 (A0 * θ) (A1 * θ) (A2 * θ) : Vec 3 R) i = a i * θ') ∧ a 0 ^ 2 + a 1 ^ 2 + a 2 ^ 2 = 1 ∧
+        rodM a (P.cos θ') (P.sin θ') = M := by
+  refine ⟨v3 A0 A1 A2, θ, ?_, ?_, ?_⟩
+  · intro i; fin_cases i <;> simp
+  · simp only [v3_0, v3_1, v3_2]
+    apply mul_right_cancel₀ (mul_ne_zero hs0 hs0)
+    linear_combination (A0 * s + (M 2 1 - M 1 2) / 2) * e0 + (A1 * s + (M 0 2 - M 2 0) / 2) * e1 + (A2 * s + (M 1 0 - M 0 1) / 2) * e2 + hs2
+  · rw [hcos, hsin]
+    exact rod_of_log hm (v3 A0 A1 A2) s c hs0 (by simpa using e0) (by simpa using e1) (by simpa using e2) hc2 hunit
+
+/-- one leaf of the obtuse branch of the logarithm, sign flipped -/
+theorem obtuse_leaf_neg (hS : P.Sqrt) {M : Mat 3 3 R} (hm : IsSO3 M) (b0 b1 b2 uk bk c s dotv θ : R)
+    (h0 : (M 2 1 - M 1 2) / 2 * uk = (1 + c) * b0) (h1 : (M 0 2 - M 2 0) / 2 * uk = (1 + c) * b1) (h2 : (M 1 0 - M 0 1) / 2 * uk = (1 + c) * b2)
+    (hk : uk * uk = (1 + c) * bk)
+    (hs2 : (M 2 1 - M 1 2) / 2 * ((M 2 1 - M 1 2) / 2) + (M 0 2 - M 2 0) / 2 * ((M 0 2 - M 2 0) / 2) + (M 1 0 - M 0 1) / 2 * ((M 1 0 - M 0 1) / 2) = s * s)
+    (hunit : s * s + c * c = 1) (hs : 0 < s) (hc : c < 0) (hbk : 0 < bk) (hc2 : 2 * c = M 0 0 + M 1 1 + M 2 2 - 1)
+    (hdot : dotv = b0 / P.sqrt (bk * (1 - c)) * ((M 2 1 - M 1 2) / 2) + b1 / P.sqrt (bk * (1 - c)) * ((M 0 2 - M 2 0) / 2) + b2 / P.sqrt (bk * (1 - c)) * ((M 1 0 - M 0 1) / 2))
+    (hcos : P.cos θ = c) (hsin : P.sin θ = s) (hd : dotv < 0) :
+    ∃ (a : Vec 3 R) (θ' : R), (∀ i, (v3 ((-(b0 / P.sqrt (bk * (1 - c)))) * θ) ((-(b1 / P.sqrt (bk * (1 - c)))) * θ) ((-(b2 / P.sqrt (bk * (1 - c)))) * θ) : Vec 3 R) i = a i * θ') ∧
+        a 0 ^ 2 + a 1 ^ 2 + a 2 ^ 2 = 1 ∧ rodM a (P.cos θ') (P.sin θ') = M := by
+  have hpp : 0 < 1 + c := by nlinarith [mul_pos hs hs]
+  have hc1 : 0 < 1 - c := by linarith
+  have hrpos : 0 < P.sqrt (bk * (1 - c)) := by
+    have hD : 0 < bk * (1 - c) := mul_pos hbk hc1
+    have hrr := hS.mul_self _ (le_of_lt hD)
+    rcases lt_or_eq_of_le (hS.nonneg (bk * (1 - c))) with h | h
+    · exact h
+    · exfalso; rw [← h] at hrr; linarith
+  have hdot' : dotv * P.sqrt (bk * (1 - c)) = b0 * ((M 2 1 - M 1 2) / 2) + b1 * ((M 0 2 - M 2 0) / 2) + b2 * ((M 1 0 - M 0 1) / 2) := by
+    rw [hdot]; field_simp
+  obtain ⟨_, hneg, hpos⟩ := axis_of_column P hS _ _ _ b0 b1 b2 uk bk (1 + c) c s dotv h0 h1 h2 hk hs2 rfl hunit hs hpp hbk hc1 hdot'
+  obtain ⟨e0, e1, e2⟩ := hneg hd
+  exact log_finish P hm _ _ _ s c θ e0 e1 e2 (ne_of_gt hs) hc2 hunit hs2 hcos hsin
+
+/-- one leaf of the obtuse branch of the logarithm, sign kept -/
+theorem obtuse_leaf_pos (hS : P.Sqrt) {M : Mat 3 3 R} (hm : IsSO3 M) (b0 b1 b2 uk bk c s dotv θ : R)
+    (h0 : (M 2 1 - M 1 2) / 2 * uk = (1 + c) * b0) (h1 : (M 0 2 - M 2 0) / 2 * uk = (1 + c) * b1) (h2 : (M 1 0 - M 0 1) / 2 * uk = (1 + c) * b2)
+    (hk : uk * uk = (1 + c) * bk)
+    (hs2 : (M 2 1 - M 1 2) / 2 * ((M 2 1 - M 1 2) / 2) + (M 0 2 - M 2 0) / 2 * ((M 0 2 - M 2 0) / 2) + (M 1 0 - M 0 1) / 2 * ((M 1 0 - M 0 1) / 2) = s * s)
+    (hunit : s * s + c * c = 1) (hs : 0 < s) (hc : c < 0) (hbk : 0 < bk) (hc2 : 2 * c = M 0 0 + M 1 1 + M 2 2 - 1)
+    (hdot : dotv = b0 / P.sqrt (bk * (1 - c)) * ((M 2 1 - M 1 2) / 2) + b1 / P.sqrt (bk * (1 - c)) * ((M 0 2 - M 2 0) / 2) + b2 / P.sqrt (bk * (1 - c)) * ((M 1 0 - M 0 1) / 2))
+    (hcos : P.cos θ = c) (hsin : P.sin θ = s) (hd : ¬ dotv < 0) :
+    ∃ (a : Vec 3 R) (θ' : R), (∀ i, (v3 ((b0 / P.sqrt (bk * (1 - c))) * θ) ((b1 / P.sqrt (bk * (1 - c))) * θ) ((b2 / P.sqrt (bk * (1 - c))) * θ) : Vec 3 R) i = a i * θ') ∧
+        a 0 ^ 2 + a 1 ^ 2 + a 2 ^ 2 = 1 ∧ rodM a (P.cos θ') (P.sin θ') = M := by
+  have hpp : 0 < 1 + c := by nlinarith [mul_pos hs hs]
+  have hc1 : 0 < 1 - c := by linarith
+  have hrpos : 0 < P.sqrt (bk * (1 - c)) := by
+    have hD : 0 < bk * (1 - c) := mul_pos hbk hc1
+    have hrr := hS.mul_self _ (le_of_lt hD)
+    rcases lt_or_eq_of_le (hS.nonneg (bk * (1 - c))) with h | h
+    · exact h
+    · exfalso; rw [← h] at hrr; linarith
+  have hdot' : dotv * P.sqrt (bk * (1 - c)) = b0 * ((M 2 1 - M 1 2) / 2) + b1 * ((M 0 2 - M 2 0) / 2) + b2 * ((M 1 0 - M 0 1) / 2) := by
+    rw [hdot]; field_simp
+  obtain ⟨_, hneg, hpos⟩ := axis_of_column P hS _ _ _ b0 b1 b2 uk bk (1 + c) c s dotv h0 h1 h2 hk hs2 rfl hunit hs hpp hbk hc1 hdot'
+  obtain ⟨e0, e1, e2⟩ := hpos hd
+  exact log_finish P hm _ _ _ s c θ e0 e1 e2 (ne_of_gt hs) hc2 hunit hs2 hcos hsin
+
+/-- **exp ∘ log on the obtuse branch**: for R ∈ SO(3) with cos θ = (tr R − 1)/2 < 0 and sin θ = |vex R| > 0 (every rotation by
+more than a quarter turn except the exact half turns) `trlog` takes the axis from the largest column of the symmetric part,
+fixes its sign against the skew part, and returns L = θ·a with a unit axis a such that Rodrigues' formula about a through θ
+reproduces R — on each of the eight paths (three pivot columns in two arrangements × two signs). -/
+theorem exp_log_SO3_obtuse (hS : P.Sqrt) (hA : Atan2Law P) (m : Mat 3 3 R) (hm : IsSO3 m) (L : Vec 3 R)
+    (h : Gen.trlog_R_twist P m = .ok L)
+    (hc : (m 0 0 + m 1 1 + m 2 2 - 1) / 2 < 0)
+    (hs : P.sqrt ((m 2 1 - m 1 2) / 2 * ((m 2 1 - m 1 2) / 2) + (m 0 2 - m 2 0) / 2 * ((m 0 2 - m 2 0) / 2) + (m 1 0 - m 0 1) / 2 * ((m 1 0 - m 0 1) / 2)) > 0) :
+    L = v3 0 0 0 ∨ ∃ (a : Vec 3 R) (θ : R), (∀ i, L i = a i * θ) ∧ a 0 ^ 2 + a 1 ^ 2 + a 2 ^ 2 = 1 ∧
+        rodM a (P.cos θ) (P.sin θ) = m := by
+  have hss := hS.mul_self _ (sq3_nonneg' ((m 2 1 - m 1 2) / 2) ((m 0 2 - m 2 0) / 2) ((m 1 0 - m 0 1) / 2))
+  have hsc := sin_sq_add_cos_sq hm
+  simp only [dot, sinAxis, cosAngle, Fin.sum_univ_three, v3_0, v3_1, v3_2] at hsc
+  have r00 := sym_rank_one hm 0 0; have r01 := sym_rank_one hm 0 1; have r02 := sym_rank_one hm 0 2
+  have r11 := sym_rank_one hm 1 1; have r12 := sym_rank_one hm 1 2; have r22 := sym_rank_one hm 2 2
+  have r10 := sym_rank_one hm 1 0; have r20 := sym_rank_one hm 2 0; have r21 := sym_rank_one hm 2 1
+  simp only [sinAxis, cosAngle, v3_0, v3_1, v3_2, one3] at r00 r01 r02 r11 r12 r22 r10 r20 r21
+  unfold Gen.trlog_R_twist at h; simp only [] at h
+  generalize hsdef : P.sqrt ((m 2 1 - m 1 2) / 2 * ((m 2 1 - m 1 2) / 2) + (m 0 2 - m 2 0) / 2 * ((m 0 2 - m 2 0) / 2) + (m 1 0 - m 0 1) / 2 * ((m 1 0 - m 0 1) / 2)) = s at *
+  generalize hcdef : (m 0 0 + m 1 1 + m 2 2 - 1) / 2 = c at *
+  have hunit : s * s + c * c = 1 := by rw [hss]; linear_combination hsc
+  have hunit' : c * c + s * s = 1 := by linear_combination hunit
+  obtain ⟨hcos, hsin⟩ := hA s c hs hunit'
+  have hc2 : 2 * c = m 0 0 + m 1 1 + m 2 2 - 1 := by rw [← hcdef]; ring
+  split_ifs at h with h1 h2 h3 h4 h5 h6 h7 h8 h9
+  all_goals (try (left; cases h; rfl))
+  all_goals (try (exfalso; linarith))
+  all_goals (right; cases h)
+  all_goals first
+    | (refine obtuse_leaf_neg P hS hm _ _ _ ((m 2 1 - m 1 2) / 2) _ c s _ _ ?_ ?_ ?_ ?_ hss.symm hunit hs hc ?_ hc2 ?_ hcos hsin (by first | exact h5 | exact h6 | exact h8 | exact h9) <;> (first | linear_combination r00 | linear_combination r01 | linear_combination r02 | linear_combination r10 | linear_combination r11 | linear_combination r12 | linear_combination r20 | linear_combination r21 | linear_combination r22 | linarith | ring1))
+    | (refine obtuse_leaf_neg P hS hm _ _ _ ((m 0 2 - m 2 0) / 2) _ c s _ _ ?_ ?_ ?_ ?_ hss.symm hunit hs hc ?_ hc2 ?_ hcos hsin (by first | exact h5 | exact h6 | exact h8 | exact h9) <;> (first | linear_combination r00 | linear_combination r01 | linear_combination r02 | linear_combination r10 | linear_combination r11 | linear_combination r12 | linear_combination r20 | linear_combination r21 | linear_combination r22 | linarith | ring1))
+    | (refine obtuse_leaf_neg P hS hm _ _ _ ((m 1 0 - m 0 1) / 2) _ c s _ _ ?_ ?_ ?_ ?_ hss.symm hunit hs hc ?_ hc2 ?_ hcos hsin (by first | exact h5 | exact h6 | exact h8 | exact h9) <;> (first | linear_combination r00 | linear_combination r01 | linear_combination r02 | linear_combination r10 | linear_combination r11 | linear_combination r12 | linear_combination r20 | linear_combination r21 | linear_combination r22 | linarith | ring1))
+    | (refine obtuse_leaf_pos P hS hm _ _ _ ((m 2 1 - m 1 2) / 2) _ c s _ _ ?_ ?_ ?_ ?_ hss.symm hunit hs hc ?_ hc2 ?_ hcos hsin (by first | exact h5 | exact h6 | exact h8 | exact h9) <;> (first | linear_combination r00 | linear_combination r01 | linear_combination r02 | linear_combination r10 | linear_combination r11 | linear_combination r12 | linear_combination r20 | linear_combination r21 | linear_combination r22 | linarith | ring1))
+    | (refine obtuse_leaf_pos P hS hm _ _ _ ((m 0 2 - m 2 0) / 2) _ c s _ _ ?_ ?_ ?_ ?_ hss.symm hunit hs hc ?_ hc2 ?_ hcos hsin (by first | exact h5 | exact h6 | exact h8 | exact h9) <;> (first | linear_combination r00 | linear_combination r01 | linear_combination r02 | linear_combination r10 | linear_combination r11 | linear_combination r12 | linear_combination r20 | linear_combination r21 | linear_combination r22 | linarith | ring1))
+    | (refine obtuse_leaf_pos P hS hm _ _ _ ((m 1 0 - m 0 1) / 2) _ c s _ _ ?_ ?_ ?_ ?_ hss.symm hunit hs hc ?_ hc2 ?_ hcos hsin (by first | exact h5 | exact h6 | exact h8 | exact h9) <;> (first | linear_combination r00 | linear_combination r01 | linear_combination r02 | linear_combination r10 | linear_combination r11 | linear_combination r12 | linear_combination r20 | linear_combination r21 | linear_combination r22 | linarith | ring1))
 end SmVerif.Props.C03
